@@ -191,11 +191,12 @@ func unmarshalJSONObject(d decoder, r Rule) (Size, error) {
 	unit := (*string)(nil)
 keys:
 	for i := 0; true; i++ {
-		if i > MaxObjectKeys {
-			return 0, fmt.Errorf("%w: %d > %d", ErrObjectTooBig, i, MaxObjectKeys)
-		}
 		if !d.More() {
 			break keys
+		}
+		// i members were read so far and there is another one
+		if MaxObjectKeys != 0 && i >= MaxObjectKeys {
+			return 0, fmt.Errorf("%w: %d > %d", ErrObjectTooBig, i+1, MaxObjectKeys)
 		}
 		t, err := d.Token()
 		if err != nil {
